@@ -14,6 +14,9 @@ class Ctx:
         self.folder = Folder(self.model)
         self._res = None
         self.cache = {}
+        self._tcache = {}
+        self._ccache = {}
+        self._keep = []     # keep synthetic nodes alive (ids are cache keys)
 
     @property
     def res(self):
@@ -53,4 +56,20 @@ class Ctx:
         return r
 
     def types_in(self, f, expr):
-        return self.in_func(f, expr).types(expr)
+        k = (f.qual, id(expr))
+        c = self._tcache
+        r = c.get(k)
+        if r is None:
+            r = c[k] = frozenset(self.in_func(f, expr).types(expr))
+            self._keep.append(expr)
+        return r
+
+    def resolve_call(self, f, call):
+        k = (f.qual, id(call))
+        c = self._ccache
+        r = c.get(k)
+        if r is None:
+            self.in_func(f, call)
+            r = c[k] = self.res._resolve_call(call)
+            self._keep.append(call)
+        return r
